@@ -640,4 +640,25 @@ def run(S):
         _spg(S, nm)
     for cfg in (dict(), dict(use_incremental_objective=True), dict(check_stability=True)):
         _driver(S, cfg)
+    _non_finite_optimality(S)
     bounded(S)
+
+
+def _non_finite_optimality(S):
+    """flag honesty under IEEE (the deductive clauses treat the optimality measure as a real): a NaN or infinite projected-gradient
+    measure is not below the tolerance, so the real convergence predicate must answer False on it. Every ordered comparison with
+    NaN is False, so one NaN representative decides the NaN class of each code shape (ground obligations on the real predicate)."""
+    import numpy as onp
+    ns, vc, info = P.load_module(FILE)
+    S.functions['TrustRegionSPG.is_converged'] = dict(file=info['file'], sha256=P.fn_sha(info['file'], 'is_converged'), frontend='P (ground)')
+    for tol in (1e-8, 1.0, 1e30):
+        st = _sym_settings(ns, tol=tol)
+        for label, v in (('nan', float('nan')), ('-nan', -float('nan')), ('inf', float('inf')), ('numpy-nan', onp.float64('nan'))):
+            try:
+                res = ns['is_converged'](None, onp.zeros(2), 0.0, 0.0, v, 0.0, 0, 1.0, st)
+                ok, detail = (not bool(res)), 'returned %r' % (res,)
+            except Exception as e:
+                ok, detail = False, 'raised %s: %s' % (type(e).__name__, str(e)[:120])
+            S.ground('TrustRegionSPG.is_converged/non_finite_optimality_is_never_reported_converged[%s,tol=%g]' % (label, tol), ok,
+                     detail='optimality %r, tol %g: %s' % (v, tol, detail),
+                     replay=lambda m, v=v, tol=tol, detail=detail: dict(reproduced=True, input=dict(realOptimality=str(v), tol=tol), observed=detail))
